@@ -32,6 +32,9 @@ def main():
             sh("git -C %s archive HEAD harness | tar -x -C %s" % (VERIF, mut))
         gm = open(mut + "/harness/go.mod").read().replace("=> /repo", "=> %s/repo" % mut)
         open(mut + "/harness/go.mod", "w").write(gm)
+        shutil.copytree(os.path.join(VERIF, "harness_ps"), mut + "/harness_ps")
+        gm = open(mut + "/harness_ps/go.mod").read().replace("=> /repo", "=> %s/repo" % mut)
+        open(mut + "/harness_ps/go.mod", "w").write(gm)
         env = dict(os.environ, VERIF_HARNESS=mut + "/harness", VERIF_EVIDENCE=mut + "/evidence", VERIF_REPLAYS=mut + "/replays", VERIF_TIER=tier)
         p = subprocess.run([os.path.join(VERIF, "bin", "check"), pid, "--tier", tier], capture_output=True, text=True, env=env, timeout=7200)
         print("\n".join((p.stdout + p.stderr).splitlines()[-25:]))
